@@ -30,7 +30,9 @@ LEVEL_TEXT = ("Machine-checked proof (Coq, closed under the global context) over
               "definitions (vm_compute) against two real Channel objects on generated histories.")
 LEVEL_NOTE = ("Trusted: Coq kernel + vm_compute; gen/c19.py (fail-closed translator); the identification of the "
               "model's atomic steps with the real critical sections (validated by the held-message direct drive, "
-              "not proved); closed / EOF states are outside the model (C22); blocking mode is modelled as "
+              "not proved); half-close by shutdown_write and set_combine_stderr are steps of the model; closed / "
+              "EOF-received states are outside it (C22); the set of functions that write a flow-control field or "
+              "call a flow-control primitive is enumerated by the translator (any new one aborts); blocking mode is modelled as "
               "'send not enabled while the window is 0' and exercised by a real multi-threaded transfer.")
 TECHNIQUE = "Coq proof (accounting invariant over all interleavings) + AST-generated arithmetic + vm_compute differential correspondence"
 
@@ -130,6 +132,7 @@ class Pair:
         self.adj_emitted = {False: 0, True: 0}
         self.consumed = {False: 0, True: 0}
         self.discarded = {False: 0, True: 0}
+        self.eof_msgs = [0, 0]
         self.problems = []
 
     def S(self, d):
@@ -158,6 +161,12 @@ class Pair:
                         self.problems.append(("grant-exceeds-consumed",
                                               "window adjustments computed %d > consumed %d + discarded %d" % (
                                                   granted, self.consumed[d], self.discarded[d])))
+                elif t == 96:
+                    # CHANNEL_EOF of a half-close: kept on the wire (delivering it only ends the direction
+                    # in which channel i was the sender)
+                    self.eof_msgs[i] += 1
+                    if self.eof_msgs[i] > 1:
+                        self.problems.append(("eof-twice", "channel sent EOF %d times" % self.eof_msgs[i]))
                 else:
                     self.problems.append(("unexpected-message", "type %d" % t))
             self.t[i].sent = []
@@ -165,7 +174,8 @@ class Pair:
     def digest(self, d):
         S, R = self.S(d), self.R(d)
         out = [S.out_window_size, S.out_max_packet_size, R.in_window_size, R.in_window_threshold,
-               R.in_window_sofar, len(R.in_buffer), len(R.in_stderr_buffer), -11]
+               R.in_window_sofar, len(R.in_buffer), len(R.in_stderr_buffer), 1 if R.combine_stderr else 0,
+               1 if S.eof_sent else 0, -11]
         for (t, code, n, _) in self.hand_data[d]:
             out += [t, code, n]
         out.append(-12)
@@ -258,6 +268,12 @@ class Pair:
             S._window_adjust(Message(body))
             self.adj_delivered[d] += n
             self.collect()
+        elif kind == "OCombine":
+            ret = 1 if R.set_combine_stderr(bool(op[1])) else 0
+            self.collect()
+        elif kind == "OShutW":
+            S.shutdown_write()
+            self.collect()
         else:
             raise ValueError(kind)
         return ret
@@ -308,6 +324,8 @@ def coq_op(op):
         return "(ORecv %s %d)" % ("true" if op[1] else "false", op[2])
     if k in ("OEmit", "OEmitAdj"):
         return "(%s %d%%nat)" % (k, op[1])
+    if k == "OCombine":
+        return "(OCombine %s)" % ("true" if op[1] else "false")
     return k
 
 
@@ -368,6 +386,10 @@ def gen_op(rng, pair, d, codes):
     S, R = pair.S(d), pair.R(d)
     mp = S.out_max_packet_size - 64
     r = rng.random()
+    if r < 0.04:
+        return ("OCombine", rng.random() < 0.7)
+    if r < 0.055:
+        return ("OShutW",)
     if r < 0.30:
         k = rng.choice(codes)
         n = rng.choice([0, 1, 2, mp - 1, mp, mp + 1, min(S.out_window_size, 120000), min(S.out_window_size + 1, 120000),
@@ -472,6 +494,34 @@ def directed_oracle(ctx):
                         do(("ODeliverAdj",))
                 case = {"cfg_ab": list(cfg), "cfg_ba": list(cfg), "ops": [[d, list(o)] for d, o in ops]}
                 ctx.count(("directed", W0, P, n), nontrivial=pair.emitted[False] > 0, kind="directed-boundary")
+                report_problems(ctx, pair, case)
+    # unread stderr data, then set_combine_stderr(True), then recv: moved bytes are credited exactly once;
+    # receiver half-closed (shutdown_write on the reading channel) at various points: reads keep being credited
+    for W in (32768, 50000):
+        for n in (1, 3000, W // 10, W // 10 + 1, 20000):
+            for shut_at in (None, 0, 2, 4):
+                cfg = (W, 32768, W, False)
+                pair = Pair(cfg, cfg)
+                ops = []
+                seq = [(False, ("OSend", 1, n)), (False, ("OEmit", 0)), (False, ("ODeliver",)),
+                       (False, ("OSend", None, n)), (False, ("OEmit", 0)), (False, ("ODeliver",)),
+                       (False, ("OCombine", True)), (False, ("ORecv", True, 10 ** 9)), (False, ("ORecv", False, n)),
+                       (False, ("ORecv", False, 10 ** 9)), (False, ("OCombine", False)), (False, ("OCombine", True))]
+                if shut_at is not None:
+                    seq.insert(shut_at, (True, ("OShutW",)))      # the READER of direction False half-closes
+                for d, op in seq:
+                    ops.append((d, op))
+                    pair.step(d, op)
+                tr = []
+                pair.settle(False, tr)
+                ops += [(d, op) for (d, op, _, _) in tr]
+                case = {"cfg_ab": list(cfg), "cfg_ba": list(cfg), "ops": [[d, list(o)] for d, o in ops]}
+                S, R = pair.S(False), pair.R(False)
+                if S.out_window_size + R.in_window_sofar != W:
+                    pair.problems.append(("credit-lost", "after everything was delivered and read, sender window %d + "
+                                          "in_window_sofar %d != advertised window %d" % (
+                                              S.out_window_size, R.in_window_sofar, W)))
+                ctx.count(("directed-combine", W, n, shut_at), nontrivial=True, kind="directed-combine-halfclose")
                 report_problems(ctx, pair, case)
     # discarded extended data around the credit threshold (threshold = W // 10)
     for W in (32768, 40000, 65536):
@@ -727,6 +777,18 @@ def live_runs(ctx, n):
             ctx.fail(key, what + " (multi-threaded blocking transfer)", case=case, observed=what)
 
 
+def check_constants(ctx):
+    """message numbers the model's digest and this harness's parser hard-code, against the live module"""
+    from paramiko import common as pc
+    want = {"MSG_CHANNEL_WINDOW_ADJUST": 93, "MSG_CHANNEL_DATA": 94, "MSG_CHANNEL_EXTENDED_DATA": 95,
+            "MSG_CHANNEL_EOF": 96}
+    for k, v in want.items():
+        ctx.count(("const", k), kind="constants")
+        if getattr(pc, k, None) != v:
+            ctx.disagree("message number %s differs from the one the model / harness use" % k, model=v,
+                         impl=getattr(pc, k, None))
+
+
 def run(ctx):
     ctx.rule = ("seeded generator (random.Random('C19-<seed>')): windows through the real _sanitize_window_size "
                 "(boundaries 32768, 2^32-1, None, out-of-range) mostly 32768..70000 so that exhaustion is reached, "
@@ -734,8 +796,9 @@ def run(ctx):
                 "arbitrary u32; histories of 5..45 ops over both directions (send / send_stderr with boundary sizes "
                 "around window and max_packet-64, out-of-order hand-over, delivery, recv / recv_stderr with sizes "
                 "around the credit threshold, adjust timing, discarded extended types 0 and 3); a model-independent "
-                "directed sweep of request/window/max-packet boundary relations and of discards around the credit "
-                "threshold; >= 2 senders blocked on an exhausted window woken by one adjust; a history is non-trivial "
+                "directed sweep of request/window/max-packet boundary relations, of discards around the credit "
+                "threshold, and of set_combine_stderr / receiver half-close (shutdown_write) sequences; histories "
+                "also contain set_combine_stderr(b) and shutdown_write ops; >= 2 senders blocked on an exhausted window woken by one adjust; a history is non-trivial "
                 "when distinct and at least one data byte reached the wire")
     ctx.trusted += ["model coq/Model/C19.v step structure is hand-written; arithmetic is generated (gen/c19.py)",
                     "stub transport in harness/c19.py stands for Transport (only _send_user_message, "
@@ -743,6 +806,7 @@ def run(ctx):
     ctx.assumptions += ["channel open and active on both ends (closed / EOF transitions are C22's)",
                         "application passes non-negative sizes to recv/recv_stderr"]
     ctx.prove()
+    check_constants(ctx)
     scale = 6 if ctx.thorough else 1
     sanitize_cases(ctx, 100 * scale)
     directed_oracle(ctx)
